@@ -56,6 +56,23 @@ def run(name, tier, seed):
         obs.append({'name': 'zipf_sweep', 'description': '[C06][native-sweep] %d samples of the real generators (random ranges incl. negative/near-limit bounds, engine words on/next to CDF breakpoints) satisfy the bracket property' % n,
                     'status': 'SUCCESS', 'tags': ['C06', 'native-sweep'], 'function': 'zipf_replay sweep', 'line': None, 'file': 'zipf_replay.cpp', 'weight': n})
         return obs
+    if name == 'zipf_wide_range':
+        exe, err = zipf_exe()
+        if exe is None:
+            raise RuntimeError('build failed: ' + err)
+        for ty in ('u32', 'u64', 'i32', 'i64'):
+            rc, out = replayers.run([exe, 'wide-range', ty], 120)
+            lines = [l for l in out.split('\n') if l.startswith('REPLAY-FAIL')]
+            if rc not in (0, 1) and not lines:
+                lines = ['REPLAY-FAIL: wide-range ApproxZipfDistribution<%s> over the full range of the type: the real generator terminated abnormally (rc=%d)' % (ty, rc)]
+            for l in lines[:2]:
+                obs.append({'name': name, 'description': '[C06][wide-range] ' + l[len('REPLAY-FAIL: '):], 'status': 'FAILURE', 'tags': ['C06', 'wide-range'],
+                            'function': 'zipf_replay wide-range', 'line': None, 'file': 'zipf_replay.cpp',
+                            'native': {'reproduced': True, 'command': 'zipf_replay wide-range ' + ty, 'observed': [l]}})
+            if not lines:
+                obs.append({'name': name, 'description': '[C06][wide-range] ApproxZipfDistribution<%s> over ranges with more bins than the type can count samples correctly' % ty,
+                            'status': 'SUCCESS', 'tags': ['C06', 'wide-range'], 'function': 'zipf_replay wide-range', 'line': None, 'file': 'zipf_replay.cpp', 'weight': 2000})
+        return obs
     if name in ('zipf_seam_small', 'zipf_purity'):
         exe, err = zipf_exe()
         if exe is None:
